@@ -33,6 +33,16 @@ def project_list(tier):
     out.append(("ext:o", ("f_prodcons", {"consumer": "amend_first"}), "o.txt"))
     out.append(("ext:extra", ("f_amend", {"extra": "static"}), "extra.txt"))
     out.append(("ext:tree", ("f_treeamend", {}), "t/x.txt"))
+    # a second build in which the plan runs again and re-declares the producer (a new version)
+    # only after the consumer (a new version too) was re-declared and may already run: the old
+    # o.txt is on disk, detached and BUILT, while the consumer amends it
+    out.append(("pc:redeclared-late", ("f_prodcons", {"late": 1, "pv": 2, "cv": 2,
+                                                      "__first__": ("f_prodcons", {})}), None))
+    for cv in (1, 2):
+        out.append((f"pc:redeclared-late-noinput:cv{cv}",
+                    ("f_prodcons", {"late": 2, "pv": 2, "cv": cv, "__first__": ("f_prodcons", {"late": 2})}), None))
+    out.append(("pc:redeclared-late-readfirst", ("f_prodcons", {"late": 1, "pv": 2, "cv": 2, "consumer": "read_first",
+                                                                "__first__": ("f_prodcons", {"consumer": "read_first"})}), None))
     # a second build after two simultaneous edits: the source of the chain and its last output
     out.append(("chain:two-edits", ("f_chain", {"__edits__": [("write", "src.txt", "edited source\n"),
                                                               ("remove", "c.txt")]}), None))
@@ -65,10 +75,19 @@ def _run(spec, prefix):
     fam, knobs = spec["proj"]
     knobs = dict(knobs)
     edits = knobs.pop("__edits__", None)
+    first = knobs.pop("__first__", None)
     files = getattr(projects, fam)(**knobs)
-    w = fresh_world(files)
+    if first:
+        files1 = getattr(projects, first[0])(**first[1])
+        w = fresh_world(files1)
+        session(w, {"njob": spec["njob"]}, ())
+        from .. import hist as _hist
+        _hist.sync(w, files1, files)
+    else:
+        w = fresh_world(files)
     cfg = {"njob": spec["njob"], "env_events": env_events_for(spec["ext"], spec["ties"]),
-           "on_start": on_start, "exit_gate": spec.get("exit_gate", False) or bool(edits)}
+           "on_start": on_start, "exit_gate": spec.get("exit_gate", False) or bool(edits),
+           "policy": spec.get("policy", "thread")}
     if edits:
         session(w, {"njob": spec["njob"]}, ())
         for op in edits:
@@ -236,11 +255,16 @@ def jobs(tier, seed):
             bound = (2 if tier == "quick" else 3)
             if ext:
                 bound = 2 if tier == "quick" else 3
-            spec = {"name": name, "proj": proj, "ext": ext, "njob": nj, "bound": bound,
-                    "ties": tier == "thorough" and not ext}
-            obs = _run(spec, [])
-            for r in split_roots(obs.points, bound):
-                out.append({**spec, **r})
+            # projects whose point is a window during a re-running plan also run on the
+            # oldest-event-first base schedule, where the plan and its steps advance in turn
+            policies = ("thread", "fifo") if name.startswith("pc:redeclared") or name == "pc4" else ("thread",)
+            for policy in policies:
+                spec = {"name": name if policy == "thread" else f"{name}/{policy}", "proj": proj, "ext": ext,
+                        "njob": nj, "bound": bound if policy == "thread" else 1, "policy": policy,
+                        "ties": tier == "thorough" and not ext}
+                obs = _run(spec, [])
+                for r in split_roots(obs.points, spec["bound"]):
+                    out.append({**spec, **r})
     return out
 
 
